@@ -61,12 +61,21 @@ def cases(tier, seed, shard, nshards):
             case = {"mode": kind, "n": nc, "len": rng.randint(0, 4), "lock": lock,
                     "src_susp": rng.choice([0, 1, 2]) if lock else 0, "cons_susp": rng.choice([0, 1, 2]),
                     "runs": RANDOM_RUNS[tier]}
+        # a tee of a tee child: child 0 of the (outer) tee is itself split again, by a tee with a lock of ITS OWN;
+        # the consumers are the remaining outer children and the inner children
+        case["nested"] = rng.choice([1, 2]) if kind != "retention" and rng.random() < 0.2 else 0
+        total = case["n"] - 1 + case["nested"] if case["nested"] else case["n"]
         # early closes
-        case["close_after"] = [rng.choice([None, None, None, 0, 1, 2]) for _ in range(case["n"])]
+        case["close_after"] = [rng.choice([None, None, None, 0, 1, 2]) for _ in range(total)]
         if rng.random() < 0.5:
-            case["close_after"] = [None] * case["n"]
+            case["close_after"] = [None] * total
         # cancellation of one consumer (enumerated over its suspension points inside run_case)
-        case["cancel_task"] = rng.randrange(case["n"]) if rng.random() < 0.4 else None
+        case["cancel_task"] = rng.randrange(total) if rng.random() < 0.4 else None
+        if case["nested"] and case["cancel_task"] is not None and case["cancel_task"] >= case["n"] - 1:
+            # the inner tee's source is an async generator (the split outer child): a cancellation thrown into a
+            # read that is suspended inside it finishes that generator, as for any generator source - what the
+            # inner siblings get afterwards is not the tee's doing.  Only outer consumers are cancelled here
+            case["cancel_task"] = rng.randrange(case["n"] - 1) if case["n"] > 1 else None
         case["abandon_on_cancel"] = rng.random() < 0.4
         case["flav"] = "async_class"
         # locks that are a scheduling point before acquiring / after having released
@@ -89,6 +98,12 @@ def execute(case, choose, cancel_at=None):
     lock = VLock("tee", susp_enter=lsusp[0], susp_exit=lsusp[1]) if case["lock"] else None
     handle = A.tee(src, n, lock=lock) if lock is not None else A.tee(src, n)
     children = list(handle)
+    lock2 = inner = None
+    if case.get("nested"):
+        lock2 = VLock("tee2", susp_enter=lsusp[0], susp_exit=lsusp[1]) if case["lock"] else None
+        inner = A.tee(children[0], case["nested"], lock=lock2) if lock2 is not None else A.tee(children[0], case["nested"])
+        children = children[1:] + list(inner)
+        n = len(children)
     recs = [[] for _ in range(n)]
     finished = [False] * n
     closed = [False] * n
@@ -136,7 +151,7 @@ def execute(case, choose, cancel_at=None):
         stale = sum(1 for i in range(min(floor, length)) if refs[i]() is not None)
         if stale > worst["stale"]:
             worst["stale"] = stale
-        if stale > n:
+        if stale > n + (1 + case["nested"] if case.get("nested") else 0):  # (+ the frames of the split child's layer)
             unstarted = any(closed[c] and not advanced[c] for c in range(n))
             viols.append(("tee/unstarted-child-never-deregisters" if unstarted else "tee/retains-items-every-live-child-yielded",
                           f"{stale} items that all live children {live} already yielded are still alive at step "
@@ -172,6 +187,8 @@ def execute(case, choose, cancel_at=None):
                                                 f"(close_after={case['close_after'][c]}, cancelled={cancelled})"))
     if lock is not None and lock.owner is not None and not driver.deadlock:
         viols.append(("tee/lock-held-at-end", f"lock still owned by {lock.owner}"))
+    if lock2 is not None and lock2.owner is not None and not driver.deadlock:
+        viols.append(("tee/lock-held-at-end", f"lock of the inner tee still owned by {lock2.owner}"))
     if all(t.done for t in tasks) and not driver.deadlock and not any(abandoned):
         if not st.released():
             key = "tee/unstarted-child-never-deregisters" if not all(advanced) else "tee/source-not-closed-after-last-child"
@@ -200,7 +217,7 @@ def run_case(case, stats: Counter):
             return execute(case, choose, cancel_at)
 
         try:
-            for res, mode, exh in explore(exe, case["mode"], case["seed"], runs, case["n"]):
+            for res, mode, exh in explore(exe, case["mode"], case["seed"], runs, len(case["close_after"])):
                 if res is None:
                     exhaustive_flag = exh
                     if exh:
@@ -212,6 +229,8 @@ def run_case(case, stats: Counter):
                 evals += 1
                 traces.add((cancel_at, info["trace"]))
                 stats["executions"] += 1
+                if case.get("nested"):
+                    stats["executions_with_a_tee_of_a_tee_child"] += 1
                 stats["choice_points"] += info["choice_points"]
                 stats["contended_lock_acquisitions"] += info["contended"]
                 if info.get("cancelled"):
